@@ -179,8 +179,8 @@ CHECKS = {
         "value kind the writer stores has a reader; the matrix writer and reader use identical hyperslab selections and transfer "
         "spaces (so the stored layout is the read layout for every shape); reading a missing name or any HDF5 failure becomes a thrown "
         "std::runtime_error; re-writing an existing name unlinks and re-creates the object (so the old value is replaced for any new shape)."
-        + 'Also: every construction of a CheckpointWriter from a group in checkpoint.cc lies behind the READ rejection; list members are written and fetched by the same name function of the position. ',
-   note="Not decided: HDF5's behaviour, bit-identity of the transferred values, non-ASCII strings, the table-row (checkpointtable.h) path. "
+        + 'Also: every construction of a CheckpointWriter from a group in checkpoint.cc lies behind the READ rejection; list members are written and fetched by the same name function of the position; for the five parsable row classes (Atom, QMAtom, StaticSite, PolarSite, QMPair) every field of the row record has one column at its own offset and type, is filled by WriteData and consumed by ReadData, and each member slot is restored from the column it was stored in. ',
+   note="Not decided: HDF5's behaviour, bit-identity of the transferred values, non-ASCII strings, CptTable's own HDF5 compound-type calls, the row classes in units that need libint/libecpint headers (not installed). "
         "xtp is parsed, not built; the overwrite defect was replayed with a stand-alone harness (replays/C17_overwrite.cc) and fixed."),
  "C19": dict(cat="other", ref="DESIGN.md section 4 C19",
    technique="Perl compiler op-tree (perl -MO=Concise, compile phase only) folded by a Perl counterpart of the C++ folding engine: scalars through their definitions (ite terms, user subs inlined through @_), array writes as events with path conditions (if/elsif/unless/statement modifiers/next); every documented point-wise formula is decided per scenario of the predicates the write depends on; loop ranges and directions; array pass-through of the grid/flag arrays",
